@@ -5714,14 +5714,14 @@ class Frame(ContainerOperand):
                         key = outer + target
                     # cannot allocate array as do not know dtype until after fill_value
                     values = []
+                    dtype = dtype_src_col
                     for group, target_map in group_to_target_map.items():
                         if target in target_map:
                             row_idx = target_map[target]
-                            dtype = dtype_src_col
                             values.append(values_src._extract(row_idx, col_idx))
                         else:
                             values.append(fill_value)
-                            dtype = resolve_dtype(dtype_src_col, dtype_fill)
+                            dtype = resolve_dtype(dtype, dtype_fill)
 
                     array = np.array(values, dtype=dtype)
                     array.flags.writeable = False
